@@ -824,6 +824,7 @@ def main():
     # a construct the converter has a branch for must not raise on well-formed input
     done = set(tot["done"])
     raised_roots = collections.Counter()
+    raise_samples = {}
     for d, variant, tree, nf, exc, msg, fd_order, cse, foreign in tot["raised"]:
         fn = "sympy_to_casadi" if d == "s2c" else "casadi_to_sympy"
         raised_roots[(d, tree[0], exc)] += 1
@@ -833,7 +834,8 @@ def main():
         if d == "c2s" and exc != "NotImplementedError":
             # an accidental exception (TypeError from Python/SymPy operators...) still is "raises an error":
             # allowed by the property; reported as information
-            run.spec_drift(f"{fn}/{construct(tree, d, variant)}/raises:{exc}", "conversion is rejected by an incidental exception (allowed: it raises)")
+            run.spec_drift(f"{fn}/rejects/{exc}", "conversion is rejected by an incidental exception rather than NotImplementedError (allowed: it raises)")
+            raise_samples.setdefault(exc, (variant, tree, msg))
     cov = collections.Counter()
     check_matrices(run, [(t, e) for t, e in mats.items()], culprit["s2c"], culprit["c2s"], cov)
     check_symbol_tables(run, cov)
@@ -886,6 +888,7 @@ def main():
                 "(literal / lifted constants) for all their environments; non-trivial = distinct non-leaf trees converted in at least one direction",
         "distinct_trees": len(bytree), "result_tags": dict(tags), "cells": dict(cells),
         "raised": {f"{d}/{t}/{e}": n for (d, t, e), n in sorted(raised_roots.items())},
+        "incidental_exception_samples": {k: list(v) for k, v in raise_samples.items()},
         "parent_side": dict(cov), "exhaustive": True,
     })
 
